@@ -289,7 +289,7 @@ func runC08(c *Ctx) {
 		o.Site(s.Pos(), "non-blocking send on %s held=%s", r.notify, la.heldAt(s))
 	}
 	nSucc := 0
-	for _, ret := range findU(r.Write, isSuccessReturn) {
+	for _, ret := range findInstrs(r.Write, isSuccessReturn) {
 		nSucc++
 		o.Site(ret.Pos(), "success return")
 	}
@@ -403,7 +403,7 @@ func runC08(c *Ctx) {
 
 	// R4: EOF only through empty then closed
 	o = c.Obl("R4", fname(r.Read), "end-of-file is reported only when the buffer is empty and closed (emptiness tested first): remaining packets stay readable after Close", 1)
-	eofs := findU(r.Read, func(in ssa.Instruction) bool { return returnsGlobalErr(in, "io", "EOF") })
+	eofs := findInstrs(r.Read, func(in ssa.Instruction) bool { return returnsGlobalErr(in, "io", "EOF") })
 	for _, e := range eofs {
 		o.Site(e.Pos(), "return io.EOF")
 		if !hasFact(e, func(f fact) bool { return emptyFact(f, true) }) {
